@@ -989,9 +989,52 @@ func (c *c13) validity() {
 			r.Unknown("parseSchedules: Schedule construction", e.Pos(ps.Pos()), "no store to Schedule.Expression")
 		}
 	}
-	// (3) buildStep returns a step only after the validator returned nil
-	bs := e.Fn(dagRel, "(*stepBuilder).buildStep")
-	if bs != nil {
+	// (3) the step constructor - the function of the package that returns (*Step,
+	// error) and allocates the step - returns a step only after the step validator
+	// (the callee that receives the step definition and returns just an error)
+	// returned nil
+	sp := e.P.Pkg(dagRel)
+	resultIs := func(f *ssa.Function, i int, name string) bool {
+		rs := f.Signature.Results()
+		if rs.Len() != 2 || i >= rs.Len() {
+			return false
+		}
+		pt, ok := rs.At(i).Type().(*types.Pointer)
+		return ok && typesName(pt.Elem()) == name
+	}
+	isStepValidator := func(v ssa.Value) bool {
+		c, ok := ir.Resolve(v).(*ssa.Call)
+		if !ok {
+			return false
+		}
+		g := c.Call.StaticCallee()
+		if g == nil || sp == nil || rootFn(g).Package() != sp || g.Signature.Results().Len() != 1 || ir.NamedType(g.Signature.Results().At(0).Type()) != "error" {
+			return false
+		}
+		for _, a := range c.Call.Args {
+			if pt, ok := a.Type().(*types.Pointer); ok && typesName(pt.Elem()) == "stepDef" {
+				return true
+			}
+		}
+		return false
+	}
+	nBS := 0
+	for _, bs := range e.RepoFuncsSorted() {
+		if sp == nil || rootFn(bs).Package() != sp || bs.Parent() != nil || !resultIs(bs, 0, "Step") {
+			continue
+		}
+		allocs := false
+		for _, b := range bs.Blocks {
+			for _, in := range b.Instrs {
+				if al, ok := in.(*ssa.Alloc); ok && strings.HasSuffix(ir.NamedType(al.Type()), "internal/dag.Step") {
+					allocs = true
+				}
+			}
+		}
+		if !allocs {
+			continue
+		}
+		nBS++
 		for _, b := range bs.Blocks {
 			for _, in := range b.Instrs {
 				rt, ok := in.(*ssa.Return)
@@ -1009,7 +1052,7 @@ func (c *c13) validity() {
 				}
 				okv := false
 				for _, l := range e.DCS(rt) {
-					if l.Kind == "cmp" && l.Op == token.EQL && ir.IsNilConst(l.Y) && calleeIs(l.X, "dag.assertStepDef") {
+					if l.Kind == "cmp" && l.Op == token.EQL && ir.IsNilConst(l.Y) && isStepValidator(l.X) {
 						okv = true
 					}
 				}
@@ -1018,9 +1061,48 @@ func (c *c13) validity() {
 			}
 		}
 	}
-	// (4) build returns a DAG only when the error list is empty; callBuilderFunc adds every error
-	bd := e.Fn(dagRel, "(*builder).build")
-	if bd != nil {
+	if nBS == 0 {
+		r.Unknown("the step constructor", dagRel, "no function of the package returns (*Step, error) and allocates the step")
+	}
+	// (4) the DAG constructor returns a DAG only when the error accumulator (the
+	// field whose type collects errors with Add and is itself an error) is empty;
+	// every field builder's error is added to it
+	isAcc := func(t types.Type) bool {
+		if pt, ok := t.(*types.Pointer); ok {
+			t = pt.Elem()
+		}
+		nt, ok := t.(*types.Named)
+		if !ok || nt.Obj().Pkg() == nil || sp == nil || nt.Obj().Pkg() != sp.Pkg {
+			return false
+		}
+		ms := types.NewMethodSet(types.NewPointer(nt))
+		return ms.Lookup(sp.Pkg, "Add") != nil && ms.Lookup(sp.Pkg, "Error") != nil
+	}
+	isAccRead := func(v ssa.Value) bool {
+		v = ir.Resolve(v)
+		if u, ok := v.(*ssa.UnOp); ok && u.Op == token.MUL {
+			v = u.X
+		}
+		fa, ok := v.(*ssa.FieldAddr)
+		return ok && isAcc(fa.Type())
+	}
+	nBD := 0
+	for _, bd := range e.RepoFuncsSorted() {
+		if sp == nil || rootFn(bd).Package() != sp || bd.Parent() != nil || !resultIs(bd, 0, "DAG") {
+			continue
+		}
+		uses := false
+		for _, b := range bd.Blocks {
+			for _, in := range b.Instrs {
+				if fa, ok := in.(*ssa.FieldAddr); ok && isAcc(fa.Type()) {
+					uses = true
+				}
+			}
+		}
+		if !uses {
+			continue
+		}
+		nBD++
 		for _, b := range bd.Blocks {
 			for _, in := range b.Instrs {
 				rt, ok := in.(*ssa.Return)
@@ -1041,7 +1123,7 @@ func (c *c13) validity() {
 					if l.Kind == "cmp" && (l.Op == token.LEQ || l.Op == token.EQL) {
 						if k, isC := ir.ConstInt(l.Y); isC && k == 0 {
 							if lc, isCall := ir.Resolve(l.X).(*ssa.Call); isCall {
-								if bi, isB := lc.Call.Value.(*ssa.Builtin); isB && bi.Name() == "len" && e.IsFieldRead(lc.Call.Args[0], nil, "errs") {
+								if bi, isB := lc.Call.Value.(*ssa.Builtin); isB && bi.Name() == "len" && isAccRead(lc.Call.Args[0]) {
 									oke = true
 								}
 							}
@@ -1052,16 +1134,54 @@ func (c *c13) validity() {
 			}
 		}
 	}
-	cb := e.Fn(dagRel, "(*builder).callBuilderFunc")
-	if cb != nil {
-		ok := false
-		for _, ci := range ir.CallsIn(cb, func(cc *ssa.CallCommon) bool { return strings.HasSuffix(ir.CalleeName(cc), "errorList).Add") }) {
-			for _, l := range e.DCS(ci) {
-				if l.Kind == "cmp" && l.Op == token.NEQ && ir.IsNilConst(l.Y) {
-					ok = true
+	if nBD == 0 {
+		r.Unknown("the DAG constructor", dagRel, "no function of the package returns (*DAG, error) and consults an error accumulator")
+	}
+	// the field builders are called through a function value of a func() error type
+	// of the package; a non-nil result is added to the accumulator
+	nDyn := 0
+	for _, f := range e.RepoFuncsSorted() {
+		if sp == nil || rootFn(f).Package() != sp {
+			continue
+		}
+		for _, b := range f.Blocks {
+			for _, in := range b.Instrs {
+				call, ok := in.(*ssa.Call)
+				if !ok || call.Call.IsInvoke() || call.Call.StaticCallee() != nil {
+					continue
 				}
+				if _, isB := call.Call.Value.(*ssa.Builtin); isB {
+					continue
+				}
+				nt, ok := call.Call.Value.Type().(*types.Named)
+				if !ok || nt.Obj().Pkg() != sp.Pkg {
+					continue
+				}
+				sig, ok := nt.Underlying().(*types.Signature)
+				if !ok || sig.Params().Len() != 0 || sig.Results().Len() != 1 || ir.NamedType(sig.Results().At(0).Type()) != "error" {
+					continue
+				}
+				nDyn++
+				added := false
+				for _, ci := range ir.CallsIn(f, func(cc *ssa.CallCommon) bool {
+					g := cc.StaticCallee()
+					return g != nil && g.Name() == "Add" && len(cc.Args) == 2 && isAcc(cc.Args[0].Type())
+				}) {
+					if ir.Resolve(ci.Common().Args[1]) != ssa.Value(call) {
+						continue
+					}
+					for _, l := range e.DCS(ci) {
+						if l.Kind == "cmp" && l.Op == token.NEQ && ir.IsNilConst(l.Y) && ir.Resolve(l.X) == ssa.Value(call) {
+							added = true
+						}
+					}
+				}
+				// and no way from the failure edge back to the next builder without the Add
+				r.Check(added, "callBuilderFunc: a builder's error is added to the error list", e.InstrPos(call), "errors of field builders are dropped")
 			}
 		}
-		r.Check(ok, "callBuilderFunc: a builder's error is added to the error list", e.Pos(cb.Pos()), "errors of field builders are dropped")
+	}
+	if nDyn == 0 {
+		r.Unknown("the call of the field builders", dagRel, "no call through a func() error value of the package found")
 	}
 }
